@@ -45,6 +45,12 @@ def run(r):
         ok_pair = len(sites) == 2 and strip(sites[0][1].a) == strip(sites[1][1].b) and strip(sites[0][1].b) == strip(sites[1][1].a) and strip(sites[0][1].d) == strip(sites[1][1].d) \
             and sites[0][1].guards == sites[1][1].guards
         w = wh(r, MOD + "symdel", sites[0][1].node) if sites else ""
+        if not sites:
+            rep.require(False, f"{MOD}symdel: no triplet insertion found in the one-collection branch (moved out of reach of the site analysis); cannot decide [C01-FGA]")
+            continue
+        U = nn.unwrap
+        ok_pair = ok_pair or (len(sites) == 2 and U(sites[0][1].a) == U(sites[1][1].b) and U(sites[0][1].b) == U(sites[1][1].a) and strip(sites[0][1].d) == strip(sites[1][1].d)
+                              and sites[0][1].guards == sites[1][1].guards)
         rep.ob("C01-FGA", MOD + "symdel", ok_pair, "both orientations (i, j, d) and (j, i, d) are inserted under the same guards with the same distance", w,
                expected="ans.add((i, j, dist)); ans.add((j, i, dist))", found=f"{len(sites)} insertion site(s)", key=f"orientations {mode[1]}")
         if sites:
